@@ -18,7 +18,10 @@ CFG = {
             "another key, chain id, signer kind or arbitrary signature bytes, 1-3 times, then all observations again under the new, the old and a third signer: every "
             "observation must equal the one on a fresh decode of the object's own encoding), a V x R x S boundary lattice (0, 1, N/2-1, N/2, N/2+1, N-1, N, N+1, 2^256-1, 2^256; "
             "V around 27/28, 35+2c, 2c-19 (negative V'), 255/256, 2^64) under all three signer kinds, MakeSigner on the built-in configs around fork "
-            "heights, TxPool.AddRemote and core.ApplyTransaction acceptance of valid / foreign-chain / high-S twins. "
+            "heights, TxPool.AddRemote and core.ApplyTransaction acceptance of valid / foreign-chain / high-S twins, SEQUENCES of core.ApplyTransaction calls on private "
+            "chain configs with HomesteadBlock = h > 0 (EIP-155 never / later / from genesis / at / after / before h; a second interleaved config) at heights below then at/above h, "
+            "the reverse, interleaved and random, with low-S / high-S unprotected and protected transactions on an evolving StateDB (each call's verdict and debited account must be "
+            "types.Sender(MakeSigner(config, height), tx) for that height, whatever was applied before). "
             "Non-trivial = the real code did not answer with an error (distinct inputs counted).",
     "tie": {"core/types.isProtectedV / deriveChainId, crypto.ValidateSignatureValues (mini-translator)": "translated (go/ssa -> Lean on every run; vArith_code_is_model, validateSignatureValues_code_is_model at the model constants for secp256k1) + corr",
             "types.Sender / Signer.Sender / recoverPlain / crypto.ValidateSignatureValues": "corr (Go vs Model.TxSign.senderOf; RLP payload and Keccak recomputed in Lean, Ecrecover values supplied by the harness)",
@@ -30,17 +33,19 @@ CFG = {
             "types.Sender cache (sigCache, Signer.Equal)": "corr (Go vs senderSeq) + direct judgement against an uncached object",
             "Transaction.Hash/Size/from caches across WithSignature / SignTx (object lifetime)": "corr (Go vs Model.TxSign.runOps on TxObj) + direct judgement against a fresh decode",
             "types.MakeSigner": "corr on the built-in chain configs",
-            "TxPool.AddRemote, core.ApplyTransaction": "direct Spec judgement on the real code"},
+            "TxPool.AddRemote, core.ApplyTransaction": "direct Spec judgement on the real code",
+            "core.ApplyTransaction sender step (MakeSigner(config, header.Number) per call) inside call sequences across fork heights": "corr (Go verdict / debited account vs Model.TxApply.applySender) + direct judgement against types.Sender(MakeSigner(config, height))"},
     "assumptions": ["secp256k1 ECDSA (crypto.Sign / Ecrecover) and Keccak-256 are parameters of the model (DESIGN.md 2.5); sign_then_sender assumes Ecrecover inverts crypto.Sign and crypto.Sign returns canonical (low-S) values (Ecdsa.SignOK); eip155_high_s_malleable assumes the ECDSA (s,v) <-> (N-s,1-v) symmetry",
                     "unforgeability itself is cryptographic: unforgeable_partial reduces 'a mutated tx keeps its sender' to a Keccak collision or an ECDSA forgery; the harness checks it empirically on every generated mutation",
                     "JSON: hexutil.Big is limited to 256 bits, so a V above 2^256 (chain id > 2^255) does not survive JSON; the generator keeps chain ids below that (counted as info:* if hit)"],
-    "trusted_base": ["Model.TxSign mirrors core/types/transaction_signing.go (MakeSigner, SignTx, Sender, the three signers, recoverPlain, deriveChainId), transaction.go (isProtectedV, WithSignature, UnmarshalJSON's signature check, EncodeRLP/DecodeRLP field list), gen_tx_json.go + hexutil number/bytes/address text rules, crypto.ValidateSignatureValues"],
+    "trusted_base": ["Model.TxApply mirrors the sender step of core/state_processor.go ApplyTransaction (signer = MakeSigner(config, header.Number), chosen per call)", "Model.TxSign mirrors core/types/transaction_signing.go (MakeSigner, SignTx, Sender, the three signers, recoverPlain, deriveChainId), transaction.go (isProtectedV, WithSignature, UnmarshalJSON's signature check, EncodeRLP/DecodeRLP field list), gen_tx_json.go + hexutil number/bytes/address text rules, crypto.ValidateSignatureValues"],
 }
 META = {
     "technique": "Lean 4 proof (signed-payload injectivity from the RLP theorems, V/R/S arithmetic for unbounded chain ids, cache transparency, RLP/JSON round trips; ECDSA and Keccak uninterpreted) tied to core/types by differential correspondence",
     "text": "Theorems sighash_injective, sign_then_sender (every chain id != 0, V of any size), eip155_rejects_foreign_chain, eip155_sender_only_own_chain, "
             "sender_only_if_valid_vrs, homestead_rejects_high_s, cache_transparent, senderCached_sound, withSignature_clears_caches, object_lifetime_transparent, hash_sender_stable_under_reencoding, rlp_decode_canonical, json_roundtrip, "
-            "json_accepts_sender_ok, unforgeable_partial (reduction to ECDSA forgery / Keccak collision), makeSigner_spec hold in the Lean model of the signers; "
+            "json_accepts_sender_ok, unforgeable_partial (reduction to ECDSA forgery / Keccak collision), makeSigner_spec, makeSigner_from_homestead, highS_rejected_from_homestead, "
+            "applySeq_history_free, highS_rejected_after_any_history (block processing: signer and high-S verdict depend on (config, height) only) hold in the Lean model of the signers; "
             "eip155_high_s_malleable / eip155_accepts_high_s_witness prove that the EIP-155 signer does NOT reject high-S signatures of protected transactions "
             "(known finding, reproduced through types.Sender, TxPool.AddRemote and core.ApplyTransaction). Every run re-checks the proofs and runs the real code "
             "and the compiled model on >30k cases requiring identical senders, hashes, encodings and errors.",
